@@ -42,6 +42,20 @@ fn strat_dates(r: &mut Rng, n_years: i64, n_random: i64) -> Vec<NaiveDate> {
         v.push(ymd(y, 9, 22));
         v.push(ymd(y, 6, 21));
     }
+    // calendar structure of the Julian-day formula: century years (Gregorian correction) and the
+    // January/February year shift, for every century of the range and its neighbours
+    let mut c = 1600;
+    while c <= 2300 {
+        for y in [c - 1, c, c + 1] {
+            if y < 1600 {
+                continue;
+            }
+            for (m, d) in [(1, 1), (1, 2), (1, 15), (1, 31), (2, 1), (2, 28), (3, 1), (12, 30), (12, 31)] {
+                v.push(ymd(y, m, d));
+            }
+        }
+        c += 100;
+    }
     for _ in 0..n_random {
         v.push(rand_date(r));
     }
@@ -112,13 +126,17 @@ pub fn gen_c02(args: &Args) {
             1 => Some((*pick(&mut r, &[1000, 10500]), *pick(&mut r, &[-900, 570]))),
             _ => Some((r.range(1000, 10500), r.range(-900, 570))),
         };
+        if r.chance(1, 3) {
+            p.pol = 6; // the library default: unflagged entries must still be conventional
+        }
         let o = call(&site, date, &p);
         w.emit(ev("c02", &site, date, &p, &o));
         if i % 3 == 0 {
             // the same call without / with weather
             let mut pa = p.clone();
             pa.w = None;
-            let mut pb = p.clone();
+            pa.pol = 0;
+            let mut pb = pa.clone();
             pb.w = Some((r.range(1000, 10500), r.range(-900, 570)));
             let a = call(&site, date, &pa);
             let b = call(&site, date, &pb);
@@ -155,11 +173,16 @@ pub fn gen_c03(args: &Args) {
     let dates = dates_for(args, &mut r);
     for (i, date) in dates.into_iter().enumerate() {
         let site = site60(&mut r, 2);
-        let p = angle_params(&mut r);
+        let mut p = angle_params(&mut r);
+        if r.chance(1, 3) {
+            p.pol = 6; // the library default: unflagged entries must still be at the configured depression
+        }
         let o = call(&site, date, &p);
         w.emit(ev("c03", &site, date, &p, &o));
         if i % 3 == 0 {
             let mut q = p.clone();
+            q.pol = 0;
+            let o = if p.pol == 0 { o.clone() } else { let mut p0 = p.clone(); p0.pol = 0; call(&site, date, &p0) };
             q.fa += r.range(1, 300) * 100;
             q.ia += r.range(1, 300) * 100;
             let b = call(&site, date, &q);
@@ -191,12 +214,16 @@ pub fn gen_c04(args: &Args) {
         }
         let mut p = plain(r.range(0, 8) as usize);
         p.sch = r.range(1, 2) as usize;
+        if r.chance(1, 3) {
+            p.pol = 6;
+        }
         let o = call(&site, date, &p);
         w.emit(ev("c04", &site, date, &p, &o));
         if i % 3 == 0 {
             let mut pa = p.clone();
             pa.sch = 1;
-            let mut pb = p.clone();
+            pa.pol = 0;
+            let mut pb = pa.clone();
             pb.sch = 2;
             let a = call(&site, date, &pa);
             let b = call(&site, date, &pb);
@@ -305,6 +332,16 @@ pub fn gen_c13(args: &Args) {
         emit_history(&mut w, &mut r, site, &p, ymd(y, 2, 20), 14);
         emit_history(&mut w, &mut r, site, &p, ymd(y, 12, 20), 22);
         histories += 3;
+    }
+    // year ends and February/March of every century year (Julian-day formula structure)
+    let mut c = 1700;
+    while c <= 2300 {
+        let site = site45(&mut r);
+        let p = plain(*pick(&mut r, &[1usize, 2, 3, 4, 5, 6]));
+        emit_history(&mut w, &mut r, site, &p, ymd(c - 1, 12, 22), 20);
+        emit_history(&mut w, &mut r, site, &p, ymd(c, 2, 20), 14);
+        histories += 2;
+        c += 100;
     }
     for _ in 0..args.num("triples", 3000) {
         let site = site45(&mut r);
